@@ -22,9 +22,16 @@ use crate::{dbutil, watch};
 
 pub fn plan(tier: &str) -> u64 {
     match tier {
-        "quick" => 1 + 12 + 40,
-        _ => 2 + 100 + 500,
+        "quick" => 1 + 12 + 40 + n_parked(tier),
+        _ => 2 + 100 + 500 + n_parked(tier),
     }
+}
+
+fn n_shapes(tier: &str) -> u64 {
+    if tier == "quick" { 40 } else { 500 }
+}
+fn n_parked(tier: &str) -> u64 {
+    if tier == "quick" { 24 } else { 240 }
 }
 
 fn n_gap(tier: &str) -> u64 {
@@ -407,6 +414,87 @@ fn case_gap(out: &mut CaseOut, seed: u64, idx: u64) {
 }
 
 
+/// A reader is parked in its unlocked section (it has pinned the current version) while every key
+/// is rewritten and compacted away, so that the version it pinned is superseded and only the
+/// reader keeps it alive. The reader then finishes - with a hit, a miss (`KeyNotFound`), at a
+/// snapshot or not - and after one more flush / garbage-collection cycle the directory must hold
+/// exactly what the current version needs again.
+fn case_parked_reader(out: &mut CaseOut, seed: u64, idx: u64) {
+    use crate::director::set_role;
+    let mut rng = Rng::new(mix(&[seed, idx], "c11-parked"));
+    let d = director();
+    d.reset(rng.next_u64());
+    let cfg = Config { memtable: *rng.pick(&[1024usize, 4096]), file: *rng.pick(&[1024u64, 4096]), block: 256, reuse: true };
+    let fs = SimFs::from_image(&dbutil::root_image());
+    let mut sess = Session::new(fs.clone(), cfg);
+    if let Err(e) = sess.open() {
+        out.violate("C11/open-failed", json!({"error": e}));
+        return;
+    }
+    let pool = gen::key_pool(&mut rng, gen::KeyFamily::Ascii, 50);
+    let mut counter = 0u64;
+    let mut rewrite = |sess: &mut Session, rng: &mut Rng| -> bool {
+        for k in &pool {
+            counter += 1;
+            if sess.put(k, &gen::tagged_value(rng, &format!("v{counter}:"), 40)).is_err() {
+                return false;
+            }
+        }
+        sess.compact(None, None);
+        sess.wait_quiescent(Duration::from_secs(20))
+    };
+    if !rewrite(&mut sess, &mut rng) {
+        out.inconclusive("degenerate: load refused");
+        return;
+    }
+    let point: &'static str = ["get.unlocked", "get.before_imm", "get.before_tables"][(idx % 3) as usize];
+    let outcome = ["miss", "hit", "miss-at-snapshot", "hit-at-snapshot"][(idx / 3 % 4) as usize];
+    let key: Vec<u8> = if outcome.starts_with("miss") { b"~no-such-key".to_vec() } else { rng.pick(&pool).clone() };
+    let snapshot = if outcome.ends_with("snapshot") { Some(sess.db().get_snapshot()) } else { None };
+    let ctx = json!({"family": "parked-reader", "config": cfg.describe(), "reader_parked_at": point, "reader_outcome": outcome});
+    let gate = d.arm(1, point, 1);
+    let reader = {
+        let (db, key, snapshot) = (sess.db_arc(), key.clone(), snapshot.clone());
+        std::thread::Builder::new().name("c11-reader".into()).spawn(move || {
+            set_role(1);
+            let _g = watch::enter("get(parked)");
+            let r = db.get(raindb::ReadOptions { fill_cache: false, snapshot }, &key);
+            drop(db);
+            r.is_ok()
+        }).unwrap()
+    };
+    if !d.wait_arrived(gate, Duration::from_secs(10)) {
+        d.release(gate);
+        let _ = reader.join();
+        out.inconclusive(format!("parked-reader: the reader did not reach {point}"));
+        sess.close();
+        return;
+    }
+    let versions_before = sess.db().verif_probe().num_versions;
+    let ok = rewrite(&mut sess, &mut rng) && rewrite(&mut sess, &mut rng);
+    let versions_while_parked = sess.db().verif_probe().num_versions;
+    d.release(gate);
+    let found = reader.join().unwrap_or(false);
+    if let Some(s) = snapshot {
+        sess.db().release_snapshot(s);
+    }
+    if !ok {
+        out.inconclusive("parked-reader: the rewrite did not complete");
+        sess.close();
+        return;
+    }
+    out.add("parked_readers", 1);
+    dir_check(out, &mut sess, "after-a-parked-reader-outlived-its-version", &ctx, "C11");
+    judge_anomalies(out, &fs, &ctx, "C11");
+    let versions_after = sess.db().verif_probe().num_versions;
+    out.max("versions_in_list_while_parked", versions_while_parked as u64);
+    if versions_while_parked > versions_before.min(1) {
+        out.nontrivial(format!("parked-reader/{point}/{outcome}/found{}", found as u8));
+    }
+    out.sample = Some(json!({"family": "parked-reader", "ctx": ctx, "versions_in_list": {"before": versions_before, "while_parked": versions_while_parked, "after_dir_check": versions_after}}));
+    sess.close();
+}
+
 /// Crash images of a recorded execution (orphan tables of unfinished flushes and compactions,
 /// half-written temp files, superseded manifests, stale WALs): after recovery, one more flush/GC
 /// cycle and quiescence the directory must again hold exactly what is needed.
@@ -502,6 +590,8 @@ pub fn run_case(tier: &str, seed: u64, idx: u64) -> CaseOut {
         case_gap(&mut out, seed, idx);
     } else if idx < ng + no {
         case_orphans(&mut out, seed, idx - ng);
+    } else if idx >= ng + no + n_shapes(tier) {
+        case_parked_reader(&mut out, seed, idx - ng - no - n_shapes(tier));
     } else if (idx - ng - no) % 5 == 4 {
         case_crash_images(&mut out, tier, seed, idx);
     } else {
